@@ -124,6 +124,12 @@ inline uint64_t others_ticks(const slot *me) {
     }
     return sum;
 }
+// hook calls at one site summed over all threads (relaxed; monitor use only)
+inline uint64_t total_site_hits(int site) {
+    uint64_t sum = 0;
+    for (int i = 0; i < MAX_SLOTS; i++) sum += (uint64_t)g_team.slots[i].hits[site];
+    return sum;
+}
 inline bool others_all_idle(const slot *me) {
     for (int i = 0; i < g_team.nteam; i++) {
         const slot &o = g_team.slots[i];
